@@ -1,6 +1,9 @@
 import CollectionsC.Properties.C10
 import CollectionsC.Proofs.PQueueCross
-/-! # C06 (priority queue part): no fault, ledger balance, destroy_cb -/
+/-! # C06 (priority queue part): no fault, ledger balance, destroy_cb
+
+Ledger statements speak of the counter that belongs to the queue's allocator triple
+(`Mem.liveT q.triple`: `live` for `cc_pqueue_new_conf`, `liveLibc` for `cc_pqueue_new`). -/
 namespace CC.Properties.C06PQueue
 open CC CC.Spec
 open CC.Spec.PQ (Op Out)
@@ -9,31 +12,32 @@ open CC.Spec.PQ (Op Out)
 only below `size`, the slot `size` written by push after a possible growth — lies below the
 allocated slot count), and the number of live blocks is unchanged: growth allocates one buffer and
 frees one, nothing else allocates -/
-theorem nofault {cmp : Nat → Nat → Int} (tp : TotalPreorder cmp) (grow : Nat → Nat) (hg : PQueue.GrowOk grow)
-    (q : PQueue) (op : Op) (m : Mem) (h : PQueue.Inv' cmp q) (hl : 2 ≤ m.live) :
-    (PQueue.step cmp grow q op m).2.2.fault = m.fault ∧ (PQueue.step cmp grow q op m).2.2.live = m.live :=
-  ⟨(C10.step_refines tp grow hg q op m h hl).2.2.2, (C10.step_refines tp grow hg q op m h hl).2.2.1⟩
+theorem nofault {cmp : Nat → Nat → Int} (tp : TotalPreorder cmp) (grow : Nat → Nat)
+    (q : PQueue) (op : Op) (m : Mem) (h : PQueue.Inv' cmp q) (hl : 2 ≤ m.liveT q.triple) :
+    (PQueue.step cmp grow q op m).2.2.fault = m.fault ∧ (PQueue.step cmp grow q op m).2.2.liveT q.triple = m.liveT q.triple :=
+  ⟨(C10.step_refines tp grow q op m h hl).2.2.2.2, (C10.step_refines tp grow q op m h hl).2.2.2.1⟩
 
-theorem history_nofault {cmp : Nat → Nat → Int} (tp : TotalPreorder cmp) (grow : Nat → Nat) (hg : PQueue.GrowOk grow)
-    (ops : List Op) (q : PQueue) (m : Mem) (h : PQueue.Inv' cmp q) (hl : 2 ≤ m.live) :
-    (PQueue.run cmp grow q ops m).2.2.fault = m.fault ∧ (PQueue.run cmp grow q ops m).2.2.live = m.live :=
-  ⟨(C10.history_refines tp grow hg ops q m h hl).2.2.2, (C10.history_refines tp grow hg ops q m h hl).2.2.1⟩
+theorem history_nofault {cmp : Nat → Nat → Int} (tp : TotalPreorder cmp) (grow : Nat → Nat)
+    (ops : List Op) (q : PQueue) (m : Mem) (h : PQueue.Inv' cmp q) (hl : 2 ≤ m.liveT q.triple) :
+    (PQueue.run cmp grow q ops m).2.2.fault = m.fault ∧ (PQueue.run cmp grow q ops m).2.2.liveT q.triple = m.liveT q.triple :=
+  ⟨(C10.history_refines tp grow ops q m h hl).2.2.2.2, (C10.history_refines tp grow ops q m h hl).2.2.2.1⟩
 
 /-- the queue owns two blocks (struct, buffer) from construction on; `new … any history … destroy`
-returns the ledger to where it started and nothing faults, for every refusal schedule -/
-theorem destroy_releases_all {cmp : Nat → Nat → Int} (tp : TotalPreorder cmp) (grow : Nat → Nat) (hg : PQueue.GrowOk grow)
-    (cap : Nat) (exGe : Nat → Bool) (hex : exGe 0 = true) (m0 : Mem) (q0 : PQueue)
-    (hnew : (PQueue.new cap exGe m0).2.1 = some q0) (ops : List Op) :
-    let m1 := (PQueue.new cap exGe m0).2.2
-    ((PQueue.run cmp grow q0 ops m1).2.1.destroy (PQueue.run cmp grow q0 ops m1).2.2).live = m0.live ∧
+returns the ledger of its triple to where it started and nothing faults, for every refusal schedule,
+every capacity the constructor accepts and both triples -/
+theorem destroy_releases_all {cmp : Nat → Nat → Int} (tp : TotalPreorder cmp) (grow : Nat → Nat)
+    (cap : Nat) (exGe : Nat → Bool) (t : Triple) (m0 : Mem) (q0 : PQueue)
+    (hnew : (PQueue.new cap exGe t m0).2.1 = some q0) (ops : List Op) :
+    let m1 := (PQueue.new cap exGe t m0).2.2
+    ((PQueue.run cmp grow q0 ops m1).2.1.destroy (PQueue.run cmp grow q0 ops m1).2.2).liveT t = m0.liveT t ∧
     ((PQueue.run cmp grow q0 ops m1).2.1.destroy (PQueue.run cmp grow q0 ops m1).2.2).fault = m0.fault :=
-  (C10.new_history_refines tp grow hg cap exGe hex m0 q0 hnew ops).2.2
+  (C10.new_history_refines tp grow cap exGe t m0 q0 hnew ops).2.2
 
 /-- a constructor that does not return a queue leaves the ledger balanced -/
-theorem new_failure_balanced (cmp : Nat → Nat → Int) (cap : Nat) (exGe : Nat → Bool) (m : Mem) (hex : exGe 0 = true)
-    (h : (PQueue.new cap exGe m).1 ≠ .ok) :
-    (PQueue.new cap exGe m).2.2.live = m.live ∧ (PQueue.new cap exGe m).2.2.fault = m.fault :=
-  (C10.new_refused cmp cap exGe m hex h).2
+theorem new_failure_balanced (cmp : Nat → Nat → Int) (cap : Nat) (exGe : Nat → Bool) (t : Triple) (m : Mem)
+    (h : (PQueue.new cap exGe t m).1 ≠ .ok) :
+    (PQueue.new cap exGe t m).2.2.liveT t = m.liveT t ∧ (PQueue.new cap exGe t m).2.2.fault = m.fault :=
+  (C10.new_refused cmp cap exGe t m h).2
 
 /-- `cc_pqueue_destroy_cb` hands each held element to the callback exactly once (the callback log
 is the abstraction, in buffer order), reads no slot outside the buffer, and releases both blocks -/
@@ -41,5 +45,10 @@ theorem destroy_cb_each_once (cmp : Nat → Nat → Int) (q : PQueue) (m : Mem) 
     (q.destroyCb m).1 = q.abs ∧ (q.destroyCb m).2 = q.destroy m := by
   have : q.size ≤ q.buf.length := by have := h.1.1; have := h.1.2.1; omega
   simp [PQueue.destroyCb, PQueue.abs, this]
+
+/-! Non-vacuity: a heap state, a ledger holding its two blocks -/
+example : PQueue.Inv' (keyCmp id) { size := 3, capacity := 4, buf := [9, 4, 7, 0] } ∧
+    2 ≤ ({ live := 2 } : Mem).liveT Triple.conf := by
+  refine ⟨⟨by decide, by decide⟩, by decide⟩
 
 end CC.Properties.C06PQueue
